@@ -61,7 +61,17 @@ let check_load (b : block) : verdict list =
         | Some [nv] when int_of_string nv = Conv.int_of_nat mn -> ()
         | Some [nv] -> add (Diff ("load-nvars", Printf.sprintf "number_of_variables: model %d impl %s" (Conv.int_of_nat mn) nv))
         | _ -> add (Diff ("block", "no nvars line"))));
-    (* recycling experiment: never a verdict, only statistics *)
+    (* recycling experiment: never a verdict, only statistics.  recycling_happened = the graph
+       built with recycling has fewer node slots than the one built without, i.e. some add_node
+       took a slot from the free list *)
+    (match Mdl.LoadD4.lex_lines_d4 clines with
+     | Some toks ->
+       let slots rc = match Mdl.LoadD4.build_d4_graph rc (fun l -> l) toks cn with
+         | Some ((g, _), _) -> Some (List.length (Mdl.LoadD4.sg_nodes g)) | None -> None in
+       (match slots true, slots false with
+        | Some a, Some b when a < b -> bump "recycling_happened"
+        | _ -> ())
+     | None -> ());
     (match impl b "panic", norec with
      | Some _, None -> ()
      | None, Some (mc, _) when mc = b.circuit -> bump "norecycle_equal"
